@@ -75,6 +75,7 @@ type VC struct {
 	typeTags  map[string]int
 	boxed     map[*Term]Val
 	boxedType map[*Term]types.Type
+	funcTerms map[*Term]*FuncV
 	extIfaceTags []*Term
 	pendingSig *types.Signature
 	notes     []string
@@ -1039,6 +1040,7 @@ func (vc *VC) execLoop(fx *FuncCtx, L *Loop, st *State, fr *Frame, ins []*State)
 	vc.addGlobalFact(Ge(newBase, Add(oldBase, IntC(int64(oldN)))))
 	vc.allocBase, vc.nAlloc = newBase, 0
 	vc.allocBases[newBase] = true
+	knownAllocBases[newBase] = true
 	cells, keys, freshOnly := vc.loopWrites(fx, L, st, fr)
 	vc.nAlloc = 0
 	if !vc.discovery && vc.scratch == 0 && (len(cells) > 0 || len(keys) > 0) {
@@ -1101,6 +1103,23 @@ func (vc *VC) execLoop(fx *FuncCtx, L *Loop, st *State, fr *Frame, ins []*State)
 	exits, backs := vc.execRegion(fx, L, h, f, hphi)
 	for t, ss := range exits {
 		exitsAll[t] = append(exitsAll[t], ss...)
+	}
+	if len(backs) > 0 && spec != nil && len(spec.Iterates) > 0 {
+		b := vc.mergeStates(backs)
+		benv := vc.specEnvFor(fx, b, f)
+		benv.prev = h
+		for _, c := range spec.Iterates {
+			g, err := benv.evalBool(c.Expr)
+			if err != nil {
+				vc.specError(b, lname+":iter:"+c.Label, c, err)
+				continue
+			}
+			tags := c.Tags
+			if len(tags) == 0 {
+				tags = tagsOf(fx.fc)
+			}
+			vc.oblige(b, lname+":iter:"+c.Label, "loop-keep", g, tags, c.Src)
+		}
 	}
 	if len(backs) > 0 && len(invs) > 0 {
 		b := vc.mergeStates(backs)
